@@ -284,12 +284,234 @@ class Builder:
                             op["edges"].append((a["name"], ("promise", rng.choice(sorted(cands)))))
             action["op"] = op
         self.anc, self.creator = anc, creator
+        self.free_cids = cids
+        if self.threads:
+            self.add_threads()
+        self.add_appends()
         return s
 
+    # ---- appends_objects_to: a creating action that nobody depends on appends its object to an edge
+    #      collection (of its own object type, settable by no operation) of a promise whose fulfilment is guaranteed
+    def add_appends(self):
+        rng, s = self.rng, self.s
+        dependees = set()
+        for c in s["checkpoints"]:
+            for d in c["deps"]:
+                if d[0] == "cmp":
+                    for o in (d[1], d[3]):
+                        if o[0] == "act":
+                            dependees.add(o[1][1])
+        for a in s["actions"]:
+            if a["id"] in dependees or self.creator.get(a["promise"][1]) != a["id"] or a["dep"] is None or rng.random() < 0.4:
+                continue
+            cp = next(c for c in s["checkpoints"] if c["id"] == a["dep"][1])
+            if cp["gate"] == "OR":
+                continue
+            direct = [o[1][1] for d in cp["deps"] if d[0] == "cmp" for o in (d[1], d[3]) if o[0] == "act"]
+            my_type = next(p for p in s["promises"] if p["id"] == a["promise"][1])["type"]
+            cands = []
+            for f in direct:
+                fa = next(x for x in s["actions"] if x["id"] == f)
+                q = fa["promise"][1]
+                if self.creator.get(q) != f or fa["ctx"] != a["ctx"]:
+                    continue        # appender and appendee must share their context
+                qt = self.otype(next(p for p in s["promises"] if p["id"] == q)["type"][1])
+                for at in qt["attrs"]:
+                    if at["kind"][0] == "C" and at["kind"][1] == my_type:
+                        cands.append((q, at["name"]))
+            if not cands:
+                continue
+            q, attr = rng.choice(cands)
+            # the collection must not be settable by any operation on q
+            for x in s["actions"]:
+                if x["promise"][1] != q:
+                    continue
+                mode, sel = x["op"]["incl"]
+                if mode == "include":
+                    x["op"]["incl"] = (mode, None if sel is None else [n for n in sel if n != attr])
+                else:
+                    x["op"]["incl"] = (mode, sorted(set((sel or []) + [attr])))
+            a["op"]["appends"] = (("promise", q), [attr])
 
-def gen_valid(rng, n_actions=None, threads=False):
-    n = n_actions or rng.choice([2, 3, 4, 5, 6, 8, 10])
-    return Builder(rng, n, threads).build()
+    # ---- thread groups (depth <= 2): a top-level group spawned from a list-valued path of a fulfilled promise,
+    #      optionally a nested group spawned from the thread variable or from a promise; threaded actions with
+    #      and without their own checkpoints; comparisons on thread variables and on threaded actions.
+    def list_paths(self, tid):
+        return [(p, t, o) for (p, t, o) in self.paths_from(tid) if t.endswith("_LIST")]
+
+    def add_threads(self):
+        rng, s = self.rng, self.s
+        roots = [p for p in s["promises"] if self.list_paths(p["type"][1])]
+        if not roots:
+            return
+        n_top = rng.choice([1, 1, 2])
+        next_id = lambda coll: max([e["id"] for e in s[coll]] + [0]) + 1
+        var_counter = [rng.randrange(50)]
+
+        def fresh_var():
+            var_counter[0] += 1
+            return var_counter[0]
+
+        def new_cp(deps, ctx):
+            cid = self.free_cids.pop() if self.free_cids else next_id("checkpoints")
+            while any(c["id"] == cid for c in s["checkpoints"]):
+                cid = next_id("checkpoints")
+            s["checkpoints"].append({"id": cid, "alias": 500 + cid, "gate": rng.choice(GATES) if len(deps) > 1 else None,
+                                     "deps": deps, "ctx": ctx})
+            return cid
+
+        def item_type(ty, obj):
+            # de-listified (ty, obj)
+            return ty[:-5], obj
+
+        for _ in range(n_top):
+            P = rng.choice(roots)
+            creator_action = self.creator[P["id"]]
+            path, ty, obj = rng.choice(self.list_paths(P["type"][1]))
+            # the group's checkpoint mentions the fulfiller (so that it is an ancestor), maybe more
+            deps = [self.make_cmp(creator_action)[0]]
+            if rng.random() < 0.4:
+                other = rng.choice([a["id"] for a in s["actions"] if a["ctx"] is None])
+                if other != creator_action:
+                    deps.append(self.make_cmp(other)[0])
+            gcp = new_cp(deps, None)
+            gid = next_id("groups") + rng.randrange(3)
+            G = {"id": gid, "name": 600 + gid, "ctx": None, "dep": ("checkpoint", gcp), "src": ("P", ("promise", P["id"]), list(path)),
+                 "var": fresh_var()}
+            s["groups"].append(G)
+            G_anc = set()
+            for d in deps:
+                for o in (d[1], d[3]):
+                    if o[0] == "act":
+                        G_anc |= {o[1][1]} | self.anc[o[1][1]]
+            vty = item_type(ty, obj)
+            self._thread_actions(G, G_anc, [(G, vty)], next_id, new_cp)
+            # nested group
+            if rng.random() < 0.5:
+                hid = next_id("groups") + rng.randrange(3)
+                src = None
+                if vty[0] == "OBJECT" and self.list_paths(vty[1]) and rng.random() < 0.7:
+                    p2, t2, o2 = rng.choice(self.list_paths(vty[1]))
+                    src, hv = ("V", gid, list(p2)), item_type(t2, o2)
+                else:
+                    # spawn from a promise fulfilled by an ancestor of the enclosing group
+                    cands = [q for q in s["promises"] if self.creator.get(q["id"]) in G_anc and q["ctx"] is None and self.list_paths(q["type"][1])]
+                    if cands:
+                        q = rng.choice(cands)
+                        p2, t2, o2 = rng.choice(self.list_paths(q["type"][1]))
+                        src, hv = ("P", ("promise", q["id"]), list(p2)), item_type(t2, o2)
+                if src is not None:
+                    H = {"id": hid, "name": 600 + hid, "ctx": ("group", gid), "dep": None, "src": src, "var": fresh_var()}
+                    H_anc = set(G_anc)
+                    if rng.random() < 0.4:
+                        # own checkpoint, visible from the parent's scope
+                        nt = [a["id"] for a in s["actions"] if a["ctx"] is None]
+                        d0 = self.make_cmp(rng.choice(nt))[0]
+                        hcp = new_cp([d0], rng.choice([None, ("group", gid)]))
+                        H["dep"] = ("checkpoint", hcp)
+                        for o in (d0[1], d0[3]):
+                            if o[0] == "act":
+                                H_anc |= {o[1][1]} | self.anc[o[1][1]]
+                    s["groups"].append(H)
+                    self._thread_actions(H, H_anc, [(G, vty), (H, hv)], next_id, new_cp)
+
+    def var_operand(self, g, vty):
+        """An operand on the thread variable of group g with a comparison partner."""
+        rng = self.rng
+        ty, obj = vty
+        if ty == "OBJECT":
+            paths = self.paths_from(obj)
+            path, pty, _ = rng.choice(paths)
+            return ("var", g["id"], list(path)), pty
+        return ("var", g["id"], []), ty
+
+    def _thread_actions(self, G, G_anc, visible_vars, next_id, new_cp):
+        rng, s = self.rng, self.s
+        k = rng.choice([1, 1, 2, 3])
+        mine = []
+        for i in range(k):
+            aid = next_id("actions") + rng.randrange(2)
+            pid = next_id("promises") + rng.randrange(2)
+            t = rng.choice(s["otypes"])
+            ctx = ("group", G["id"])
+            a_anc = set(G_anc)
+            action = {"id": aid, "name": 400 + aid, "party": ("party", rng.choice(s["parties"])["id"]), "promise": ("promise", pid),
+                      "ctx": ctx, "dep": None, "op": None, "milestones": []}
+            edit = None
+            if mine and rng.random() < 0.3:
+                edit = rng.choice(mine)
+            deps = []
+            if edit is not None or rng.random() < 0.6:
+                # own checkpoint inside the thread: threaded actions of this group, thread variables, outside actions
+                if edit is not None:
+                    deps.append(self.make_cmp(edit)[0])
+                    a_anc |= {edit} | self.anc[edit]
+                r = rng.random()
+                if r < 0.4 and visible_vars:
+                    g, vty = rng.choice(visible_vars)
+                    vo, pty = self.var_operand(g, vty)
+                    if pty in ("OBJECT", "OBJECT_LIST"):
+                        deps.append(("cmp", vo, rng.choice(OPS), ("lit", "SNull", self.fresh())))
+                    else:
+                        o, shape = self.literal_for(pty)
+                        deps.append(("cmp", vo, o, ("lit", shape, self.fresh())))
+                elif r < 0.7 and mine:
+                    m = rng.choice(mine)
+                    deps.append(self.make_cmp(m)[0])
+                    a_anc |= {m} | self.anc[m]
+                elif not deps:
+                    nt = [a["id"] for a in s["actions"] if a["ctx"] is None]
+                    m = rng.choice(nt)
+                    deps.append(self.make_cmp(m)[0])
+                    a_anc |= {m} | self.anc[m]
+                # a checkpoint that only holds a variable comparison still needs the thread context
+                cid = new_cp(deps, ctx)
+                action["dep"] = ("checkpoint", cid)
+            if edit is not None:
+                prom = next(x for x in s["actions"] if x["id"] == edit)["promise"][1]
+                action["promise"] = ("promise", prom)
+                is_creator = False
+            else:
+                s["promises"].append({"id": pid, "name": 300 + pid, "type": ("type", t["id"]), "ctx": ctx})
+                self.creator[pid] = aid
+                is_creator = True
+                prom = pid
+            tt = self.otype(next(p for p in s["promises"] if p["id"] == prom)["type"][1])
+            names = [a["name"] for a in tt["attrs"]]
+            action["op"] = {"incl": (rng.choice(["include", "exclude"]), rng.sample(names, rng.randint(0, min(2, len(names))))),
+                            "defaults": [], "edges": [], "appends": None}
+            s["actions"].append(action)
+            self.anc[aid] = a_anc
+            mine.append(aid)
+
+
+def operand_key(o):
+    if o[0] == "lit":
+        return ("lit", json.dumps(lit_value(o[1], o[2]), sort_keys=True))
+    return (o[0], o[1], tuple(o[2]))
+
+
+def composite_key(c):
+    deps = []
+    for d in c["deps"]:
+        deps.append(("ref", d[1]) if d[0] == "ref" else ("cmp", operand_key(d[1]), d[2], operand_key(d[3])))
+    return (c["gate"], tuple(sorted(map(repr, deps))))
+
+
+def has_duplicate_composite(s):
+    """Two checkpoints with the same gate type and the same set of dependencies (after normalising spelling)."""
+    keys = [composite_key(c) for c in s["checkpoints"]]
+    return len(keys) != len(set(keys))
+
+
+def gen_valid(rng, n_actions=None, threads=False, builder=False):
+    for _ in range(20):
+        n = n_actions or rng.choice([2, 3, 4, 5, 6, 8, 10])
+        b = Builder(rng, n, threads)
+        s = b.build()
+        if not has_duplicate_composite(s):
+            return (s, b) if builder else s
+    raise RuntimeError("could not generate a scenario without duplicate checkpoints")
 
 
 # ----------------------------------------------------------------------------------------------- rendering
